@@ -53,6 +53,12 @@ def main():
       if not (os.path.exists(patch) and os.path.exists(demo)):
         continue
       name = os.path.basename(mdir)
+      # demos written by sub-agents may assert their own worktree path: neutralise that line
+      src_demo = open(demo).read()
+      clean = '\n'.join(('pass  # ' + l.strip()) if ("startswith('/tmp/wt" in l or 'startswith("/tmp/wt' in l)
+                        and l.lstrip() == l else l for l in src_demo.split('\n'))
+      demo = os.path.join(tempfile.gettempdir(), f'demo_{prop}_{name}.py')
+      open(demo, 'w').write(clean)
       meta = {}
       try:
         meta = json.load(open(os.path.join(mdir, 'meta.json')))
